@@ -33,6 +33,7 @@ func init() {
 	generators["lateregister"] = genLateRegister
 	generators["longprobe"] = genLongProbe
 	generators["twoinflight"] = genTwoInFlight
+	generators["outage"] = genOutage
 }
 
 func anyLatency(r rng, h time.Duration) Latency {
@@ -261,14 +262,14 @@ func genStopPoints(r rng, k int) *Spec {
 // c03grid: fault kind x first faulty attempt x (H, TTL, latency, had-watch-loop)
 // ---------------------------------------------------------------------------
 
-var c03Kinds = []string{"err-timeout", "err-noresponders", "err-connclosed", "hang", "acklost", "partition", "replaced", "deleted", "expired"}
+var c03Kinds = []string{"err-timeout", "err-noresponders", "err-connclosed", "hang", "acklost", "partition", "replaced", "deleted", "expired", "mix-hang-err", "mix-err-hang", "mix-hang-err-acklost"}
 
 func genC03Grid(r rng, k int) *Spec {
 	kind := c03Kinds[k%len(c03Kinds)]
 	att := 1 + (k/len(c03Kinds))%6
 	h := r.pickD(100*ms, 250*ms, 1*sec, 2*sec, 5*sec)
-	if k < 54*5 { // first passes: sweep H deterministically too
-		h = []time.Duration{100 * ms, 250 * ms, 1 * sec, 2 * sec, 5 * sec}[(k/54)%5]
+	if n := len(c03Kinds) * 6; k < n*5 { // first passes: sweep H deterministically too
+		h = []time.Duration{100 * ms, 250 * ms, 1 * sec, 2 * sec, 5 * sec}[(k/n)%5]
 	}
 	ratio := r.pickI(3, 5, 10)
 	s := &Spec{TTL: time.Duration(ratio) * h, NoPreempt: true, Tags: []string{"c03", kind}}
@@ -304,6 +305,12 @@ func genC03Grid(r rng, k int) *Spec {
 		s.Rules = append(s.Rules, FaultRule{Client: "i0", Op: "Update", FromOrd: att, Kind: "hang", Err: "timeout"})
 	case "acklost":
 		s.Rules = append(s.Rules, FaultRule{Client: "i0", Op: "Update", FromOrd: att, Kind: "acklost", Err: "timeout"})
+	case "mix-hang-err", "mix-err-hang", "mix-hang-err-acklost":
+		// every refresh fails, but not twice in a row in the same way
+		seq := map[string][]string{"mix-hang-err": {"hang", "err"}, "mix-err-hang": {"err", "hang"}, "mix-hang-err-acklost": {"hang", "err", "acklost"}}[kind]
+		for j := 0; j < 24; j++ {
+			s.Rules = append(s.Rules, FaultRule{Client: "i0", Op: "Update", FromOrd: att + j, ToOrd: att + j, Kind: seq[j%len(seq)], Err: r.pickS("timeout", "noresponders", "io")})
+		}
 	case "partition":
 		s.Actions = append(s.Actions, Action{At: t0 + time.Duration(att)*h - r.dur(0, h-ms), Kind: "partition", Inst: "i0"})
 	case "replaced":
@@ -1994,6 +2001,62 @@ func genTwoInFlight(r rng, k int) *Spec {
 	// (with the short gaps every answer still arrives within H/2 of its request: the
 	// fault-free premise of C02/C07 holds)
 	s.Benign = gap <= 20*ms
+	s.Duration = 6 * h
+	s.Sample = sampleFor(h)
+	return s
+}
+
+// ---------------------------------------------------------------------------
+// outage: the leader hears nothing from its watch (every event lost). Right after one of
+// its heartbeats its record is gone (expired / deleted) and a successor has the key; a
+// reconnect notification starts the verification, whose second read is slow - slow
+// enough for the old leader's next heartbeat to tick in between.
+// ---------------------------------------------------------------------------
+
+// OutageTotal is the size of the enumeration.
+func OutageTotal() int { return 2 * 3 * 2 * 2 }
+
+func genOutage(r rng, k int) *Spec {
+	idx := k % OutageTotal()
+	gone := []string{"outexpire", "outdel"}[idx%2]
+	idx /= 2
+	held := []string{"second-read-req", "second-read-resp", "first-read-resp"}[idx%3]
+	idx /= 3
+	withD := idx%2 == 1
+	idx /= 2
+	prio := idx%2 == 1
+	h := r.pickD(500*ms, 1*sec)
+	s := &Spec{TTL: 3 * h, NoPreempt: !prio, Tags: []string{"connection", "outage", gone, held}}
+	s.Watch = WatchPolicy{DropP: 1}
+	s.Insts = mkInsts(2, 1, h)
+	s.Insts[0].Conn = true
+	s.Insts[0].Grace = 10 * h
+	if prio {
+		s.Insts[0].Priority, s.Insts[1].Priority = 2, 1
+		s.Insts[0].Takeover = true
+	}
+	n := 2 + r.IntN(3)
+	t := 10*ms + time.Duration(n)*h + 20*ms // just after the leader's n-th heartbeat (zero latency)
+	nth, phase := 2, "req"
+	switch held {
+	case "second-read-resp":
+		phase = "resp"
+	case "first-read-resp":
+		nth, phase = 1, "resp"
+	}
+	s.Breaks = []BreakSpec{{Name: "vr", Client: "i0", Op: "Get", Nth: nth, Phase: phase}}
+	s.Actions = append(s.Actions, Action{At: 10 * ms, Kind: "start", Inst: "i0"})
+	if withD {
+		s.Actions = append(s.Actions, Action{At: t - 10*ms, Kind: "conn", Inst: "i0", Val: "D"})
+	}
+	s.Actions = append(s.Actions,
+		Action{At: t, Kind: gone, Inst: "g0"},
+		Action{Chain: true, Kind: "start", Inst: "i1"},
+		Action{After: 5 * ms, Kind: "arm", Break: "vr"},
+		Action{Chain: true, Kind: "conn", Inst: "i0", Val: "R"},
+		Action{After: ms, Kind: "waitbreak", Break: "vr", D: 2 * sec},
+		Action{After: h, Kind: "release", Break: "vr"},
+	)
 	s.Duration = 6 * h
 	s.Sample = sampleFor(h)
 	return s
